@@ -5,7 +5,7 @@ use crate::gen;
 use crate::oracle::{classify, Out};
 use crate::refenc::{self, W};
 use crate::rng::Rng;
-use crate::visit::{first_outside, Slices};
+use crate::visit::{first_outside, Slices, veq};
 use serde_json::json;
 use tls_parser::*;
 
@@ -101,7 +101,7 @@ macro_rules! locality {
                 }
                 match &r2 {
                     Ok((_, v2)) => {
-                        if v1 != v2 {
+                        if !veq(v1, v2) {
                             bad = Some(("suffix-changes-value", format!("{:.200?} vs {:.200?}", v1, v2)));
                         } else if !o2.rem_is_suffix(&bx, consumed) {
                             bad = Some(("suffix-not-returned-as-remainder", o2.show()));
@@ -176,7 +176,7 @@ macro_rules! huge {
             let bad = match (&r1, &r2) {
                 (Ok((rem1, v1)), Ok((_, v2))) => {
                     let consumed = b.len() - rem1.len();
-                    if v1 != v2 {
+                    if !veq(v1, v2) {
                         Some("suffix-changes-value")
                     } else if !o2.rem_is_suffix(whole, consumed) {
                         Some("suffix-not-returned-as-remainder")
